@@ -3,5 +3,7 @@ EXTENDS Serde
 \* <<trips, representative>> plans
 PlanDesign   == {<<1, 0>>}
 PlanQuick    == {<<2, 0>>, <<1, 1>>}
-PlanThorough == {<<1, 0>>, <<1, 1>>, <<1, 2>>, <<2, 0>>, <<2, 1>>}
+PlanThorough == {<<1, 0>>, <<1, 1>>, <<1, 2>>, <<2, 0>>}
+\* one path per serialiser family, plus the exception-carrying ticks
+PairPathsCore == {"json", "env_meta_qn", "env_client", "tick_add_retry", "tick_step_result", "tick_step_failed"}
 ====
